@@ -472,6 +472,25 @@ func main() {
 	}
 	arrays := os.Getenv("C20_NO_ARRAYS") == ""
 
+	// 0. corpus: refutation witnesses and past disagreements run first
+	if dir := os.Getenv("VERIF_CORPUS"); dir != "" {
+		files, _ := os.ReadDir(dir)
+		for _, f := range files {
+			data, err := os.ReadFile(dir + "/" + f.Name())
+			if err != nil {
+				continue
+			}
+			for _, ln := range strings.Split(string(data), "\n") {
+				fs := strings.Fields(ln)
+				if len(fs) == 0 || strings.HasPrefix(fs[0], "#") {
+					continue
+				}
+				g.do(fs[0], fs[1:]...)
+				r.Stat("corpus.cases", 1)
+			}
+		}
+	}
+
 	// 1. reference renderings against the standard library
 	specCases(g)
 
